@@ -6,6 +6,11 @@ ALL = ["C%02d" % i for i in range(1, 21)]
 
 # id -> dict(level_text, level_note, technique, design_ref)
 CLAIMED = {
+ "C13": dict(
+   text="The production sources::fs::worker driven on a paused current-thread runtime with a recording, fault-injecting notify::Watcher substituted through hook H1. Bounded-exhaustive over all sequences of a 12-op alphabet (2-path universe: set/clear/recursion-mode flip, kind change, watch/unwatch failure, during-apply path and kind change, irrelevant change) up to length 3 (quick) / 4 (thorough) x {settled, burst}, then random sequences over a 4-path universe. 'During-apply' ops make a change land inside the worker's read-apply window deterministically (the mock performs it from within the k-th watch/unwatch call). After changes stop: registered set with modes == configured set (minus paths whose latest attempt was failed by injection), active kind == configured kind, empty set releases the watcher, one RuntimeError per failed attempt naming the path, no unwatch of an unregistered path; after a retry round the set is exact.",
+   note="Mock watcher instead of inotify/poll (behavioural variant with real files not built). Handler-reconfiguration (no deadlock, old invocation unaffected) is checked in C15's in-process runner. One open known finding: recursion-mode flip after a failed unwatch (bookkeeping keyed on (path, mode)).",
+   technique="bounded-exhaustive + proptest stateful sequences with fault injection against a model of the configured set (virtual time)",
+   ref="DESIGN.md §3 C13"),
  "C03": dict(
    text="Real ignore files on a scratch tree, verdicts through IgnoreFilterer::check_event / IgnoreFilter::check_dir compared with an independent gitignore evaluator (own glob matcher; nearest directory's files first with path-then-parents inside each, last line wins, then farther, then global) restricted to the region where it agrees with a second, git top-down evaluator; plus four metamorphic relations that need no model: removing the ignore file of D never changes a verdict outside D, permutations preserving same-directory order give identical verdicts, rebuilding from identical inputs gives identical verdicts, new(all) == new(prefix)+add_file(rest). Directory alphabets are built to contain test/tests-style prefix siblings; 30% negations.",
    note="git check-ignore third opinion not built (two independent evaluators are used instead). A directory versus an ignore file stored in that very directory, and semantics-divergent probes, are labelled and not asserted, as the property states. Outside-origin probes only go through the metamorphic relations.",
